@@ -33,6 +33,8 @@ ASSUMPTIONS = [
     'thermodynamically meaningful (T = 298.15 K, every reacting species in its reference phase) — DESIGN 3 C06(b)',
     'h_i is re-evaluated with Chemical.H(phase, T, P) of the package (ideal mixture); latent heats from Chemical.phase_ref, Hvap(298.15), Hfus',
     'adiabatic outlet temperatures outside [200, 1500] K are counted as rejected (outside the models\' range)',
+    'the enthalpy setter may switch a single-phase stream between l and g when the original phase has no solution; the balance is then judged in '
+    'the phase the stream reports (counted as outcome adiabatic-phase-switched)',
 ]
 TOLERANCES = {
     'dH_rtol': 1e-12,
@@ -435,13 +437,18 @@ def check_adiabatic(st, s, n_ref, phases, single, H0, Qv, match):
     if abs(H1 - (H0 + Qv)) > tol:
         raise Violation('adiabatic', f'Hnet after {H1!r} != Hnet before {H0!r} + Q {Qv!r} (difference {H1 - H0 - Qv:.6g}, tolerance {tol:.3g})',
                         match=dict(match, how='balance'), residual=abs(H1 - H0 - Qv))
-    # independent re-evaluation of the outlet state
+    # independent re-evaluation of the outlet state.  The enthalpy setter of a single-phase stream may switch the phase
+    # (l <-> g) when no temperature of the original phase satisfies the balance; the re-evaluation uses the phase the
+    # stream reports now (the property says nothing about the phase), and the switch is visible in the outcome counter.
+    if single is not None:
+        st.flipped = s.phase != single
+        single = s.phase
     Hm1 = model_Hnet(n_ref, phases, single, T1, P_REF)
     if abs(Hm1 - (H0 + Qv)) > tol:
         raise Violation('adiabatic', f'sum n (Hf + h) at the outlet temperature {T1!r} is {Hm1!r}; Hnet before + Q = {H0 + Qv!r}',
                         match=dict(match, how='re-evaluated'), residual=abs(Hm1 - H0 - Qv))
     st.last = (fx.r12(T1),)
-    return ('adiabatic', round(T1, 6))
+    return ('adiabatic' if not getattr(st, 'flipped', False) else 'adiabatic-phase-switched', round(T1, 6))
 
 
 # =========================================================================================================
@@ -519,12 +526,13 @@ class History(System):
             st.n = got
             return ('iso', fx.r12(H1 - H0))
         out = check_adiabatic(st, s, n_ref, st.phases, st.single, H0, a[1], match)
+        if st.single is not None: st.single = s.phase          # the enthalpy setter may have switched the phase
         st.n = got
         return out
 
     def canon(self, st):
         s = st.tgt.stream
-        return (st.config, rc.rxn_digest(st.obj), tuple(fx.r12(x) for x in st.n.ravel()), fx.r12(s.T), fx.stream_digest(s)[3])
+        return (st.config, rc.rxn_digest(st.obj), tuple(fx.r12(x) for x in st.n.ravel()), fx.r12(s.T), fx.stream_digest(s)[2:4])
 
     def nontrivial(self, st, a, obs): return st.moved and st.count >= 2
     def outcome(self, st, a, obs): return repr((st.config[0], st.config[2], st.config[3], a[0], obs[0], st.count >= 2))
